@@ -1,34 +1,425 @@
-(** C08 — lemmas. *)
-From Coq Require Import List String Bool Arith Lia.
+(** C08 — lemmas (the property theorems are restated in C08/Props.v). *)
+From Coq Require Import List String Bool Arith ZArith Lia.
 From SV Require Import C08.Base C08.Gen C08.Model.
 Import ListNotations.
+Open Scope string_scope.
+Open Scope list_scope.
 
-Definition all_one : bool :=
-  forallb (fun a => Nat.eqb (answers fallback_answers a) 1) arms_table &&
-  Nat.eqb (answers fallback_answers none_row) 1.
+(** ** The generated table, checked by computation over every control-flow path *)
+Definition opts (ps : list path) : list path := match ps with [] => [(0, false)] | _ => ps end.
 
-(** the generated table, checked by computation: every variant, one final answer *)
-Lemma all_arms_one_final : all_one = true.
+Definition check (stop : bool) (a : nat) (agg : bool) (b : nat) : bool :=
+  if stop then Nat.eqb a 0 && agg && Nat.eqb b 0
+  else Nat.eqb (a + (if agg then 1 else 0) + b) 1.
+
+Definition total_ok (stop : bool) (row : arm_row) : bool :=
+  match s0 row with
+  | Some ps => negb stop && forallb (fun p => Nat.eqb (fst p) 1) (opts ps)
+  | None =>
+    forallb (fun p1 : path =>
+      if snd p1 then negb stop && Nat.eqb (fst p1) 1 else
+      forallb (fun p2 : path =>
+        if snd p2 then negb stop && Nat.eqb (fst p1 + fst p2) 1 else
+        let agg := Nat.ltb 0 (dests row) in
+        match s4 row with
+        | Some ps4 => forallb (fun p4 : path => check stop (fst p1 + fst p2) agg (fst p4)) (opts ps4)
+        | None => check stop (fst p1 + fst p2) agg (if fallback_answers && negb agg then 1 else 0)
+        end) (opts (s2 row))) (opts (s1 row))
+  end.
+
+Definition is_stop_name (name : string) : bool := (name =? "SoftStop") || (name =? "HardStop").
+
+Definition in_table (name : string) : bool :=
+  existsb (fun a => String.eqb (a_name a) name) arms_table.
+
+Definition none_row_ : arm_row := mkRow "None" None [(0, false)] [(0, false)] 0 None.
+
+Definition table_ok : bool :=
+  forallb (fun row => total_ok (is_stop_name (a_name row)) row) arms_table &&
+  total_ok false none_row_ && in_table "SoftStop" && in_table "HardStop" &&
+  (* the stop verbs are not answered in read_channel itself *)
+  forallb (fun row => negb (is_stop_name (a_name row)) || match s0 row with None => true | Some _ => false end) arms_table.
+
+Lemma all_arms_one_final : table_ok = true.
 Proof. vm_compute. reflexivity. Qed.
 
-Lemma answers_of_one : forall name, answers_of name = 1.
+(** an arm that can leave before [config_state.dispatch] belongs to a variant
+    [ConfigState::dispatch] accepts without touching the state *)
+Definition skips_dispatch (row : arm_row) : bool :=
+  match s0 row with Some _ => true | None => existsb (fun p : path => snd p) (opts (s1 row)) end.
+
+Definition skips_ok : bool :=
+  forallb (fun row => negb (skips_dispatch row) || existsb (String.eqb (a_name row)) state_noop) arms_table.
+
+Lemma all_skips_are_noops : skips_ok = true.
+Proof. vm_compute. reflexivity. Qed.
+
+Lemma pick_in : forall i ps, In (pick i ps) (opts ps).
 Proof.
-  intros name. pose proof all_arms_one_final as H. unfold all_one in H.
-  apply andb_true_iff in H. destruct H as [Ht Hn]. unfold answers_of, lookup.
-  destruct (find (fun a => String.eqb (a_name a) name) arms_table) as [a|] eqn:E.
-  - apply find_some in E. destruct E as [Hin _].
-    rewrite forallb_forall in Ht. apply Nat.eqb_eq. apply Ht. exact Hin.
-  - apply Nat.eqb_eq. exact Hn.
+  intros i ps. unfold pick, opts. destruct ps as [|p ps]; [destruct i; left; reflexivity|].
+  cbn [hd]. destruct (Nat.lt_ge_cases i (List.length (p :: ps))) as [H|H].
+  - apply nth_In. exact H.
+  - rewrite nth_overflow by exact H. left. reflexivity.
 Qed.
 
-Lemma stream_is_ids : forall reqs, stream reqs = map fst reqs.
-Proof.
-  induction reqs as [|[id v] reqs IH]; [reflexivity|].
-  unfold stream in *. cbn [flat_map map fst snd]. rewrite answers_of_one. cbn [repeat app]. rewrite IH. reflexivity.
-Qed.
+Section proofs.
+  Variable view : Type.
+  Variable payload : Type.
+  Variable dispatch : view -> string -> payload -> view.
 
-Lemma count_occ_map_fst : forall (reqs : list (nat * string)) id,
-    NoDup (map fst reqs) -> In id (map fst reqs) -> count_occ Nat.eq_dec (map fst reqs) id = 1.
-Proof.
-  intros reqs id Hnd Hin. apply NoDup_count_occ' with (decA := Nat.eq_dec) in Hin; assumption.
-Qed.
+  Notation request := (request payload).
+  Notation worker := (worker view).
+  Notation handle := (handle dispatch).
+  Notation notify := (notify dispatch).
+  Notation step := (step dispatch).
+  Notation run := (run dispatch).
+  Notation event := (event payload).
+
+  Lemma row_of_name : forall name, lookup name = None \/ a_name (row_of name) = name /\ In (row_of name) arms_table.
+  Proof.
+    intros name. unfold row_of, lookup. destruct (find _ arms_table) as [a|] eqn:E; [right|left; reflexivity].
+    apply find_some in E. destruct E as [Hin He]. apply String.eqb_eq in He. auto.
+  Qed.
+
+  Lemma row_ok : forall name, total_ok (is_stop_name name) (row_of name) = true.
+  Proof.
+    intros name. pose proof all_arms_one_final as H. unfold table_ok in H.
+    apply andb_true_iff in H; destruct H as [H HE]. apply andb_true_iff in H; destruct H as [H HD].
+    apply andb_true_iff in H; destruct H as [H HC]. apply andb_true_iff in H; destruct H as [HA HB].
+    destruct (row_of_name name) as [Hn|[Hn Hin]].
+    - unfold row_of. rewrite Hn.
+      assert (Hs : is_stop_name name = false).
+      { unfold is_stop_name. destruct (name =? "SoftStop") eqn:E1.
+        - apply String.eqb_eq in E1. subst name. unfold in_table in HC.
+          apply existsb_exists in HC. destruct HC as [a [Ha Hb]]. unfold lookup in Hn.
+          pose proof (find_none _ _ Hn a Ha) as Hx. cbv beta in Hx. congruence.
+        - destruct (name =? "HardStop") eqn:E2; [|reflexivity].
+          apply String.eqb_eq in E2. subst name. unfold in_table in HD.
+          apply existsb_exists in HD. destruct HD as [a [Ha Hb]]. unfold lookup in Hn.
+          pose proof (find_none _ _ Hn a Ha) as Hx. cbv beta in Hx. congruence. }
+      rewrite Hs. exact HB.
+    - rewrite forallb_forall in HA. specialize (HA _ Hin). rewrite Hn in HA. exact HA.
+  Qed.
+
+  Lemma stop_not_special : forall name, is_stop_name name = true -> s0 (row_of name) = None.
+  Proof.
+    intros name Hs. pose proof all_arms_one_final as H. unfold table_ok in H.
+    apply andb_true_iff in H; destruct H as [H HE]. apply andb_true_iff in H; destruct H as [H HD].
+    apply andb_true_iff in H; destruct H as [H HC]. apply andb_true_iff in H; destruct H as [HA HB].
+    destruct (row_of_name name) as [Hn|[Hn Hin]].
+    - unfold row_of. rewrite Hn. reflexivity.
+    - rewrite forallb_forall in HE. specialize (HE _ Hin). rewrite Hn, Hs in HE. cbn in HE.
+      destruct (s0 (row_of name)); [discriminate|reflexivity].
+  Qed.
+
+  (** what [notify] pushes, on every path and for every oracle *)
+  Lemma notify_counts : forall (w : worker) (r : request) o w' a agg b,
+      s0 (row_of (r_name r)) = None ->
+      notify w r o = (w', (a, agg, b)) ->
+      check (is_stop_name (r_name r)) a agg b = true \/
+      (is_stop_name (r_name r) = false /\ a = 1 /\ agg = false /\ b = 0).
+  Proof.
+    intros w r o w' a agg b H0 H. pose proof (row_ok (r_name r)) as Hok. unfold total_ok in Hok. rewrite H0 in Hok.
+    unfold Model.notify in H.
+    pose proof (pick_in (o_p1 o) (s1 (row_of (r_name r)))) as Hp1.
+    destruct (pick (o_p1 o) (s1 (row_of (r_name r)))) as [n1 ret1].
+    rewrite forallb_forall in Hok. specialize (Hok _ Hp1). cbn [fst snd] in Hok.
+    destruct ret1.
+    - inversion H; subst. right. apply andb_true_iff in Hok. destruct Hok as [Hs Hn].
+      apply negb_true_iff in Hs. apply Nat.eqb_eq in Hn. auto.
+    - pose proof (pick_in (o_p2 o) (s2 (row_of (r_name r)))) as Hp2.
+      destruct (pick (o_p2 o) (s2 (row_of (r_name r)))) as [n2 ret2].
+      rewrite forallb_forall in Hok. specialize (Hok _ Hp2). cbn [fst snd] in Hok.
+      destruct ret2.
+      + inversion H; subst. right. apply andb_true_iff in Hok. destruct Hok as [Hs Hn].
+        apply negb_true_iff in Hs. apply Nat.eqb_eq in Hn. auto.
+      + inversion H; subst. left. destruct (s4 (row_of (r_name r))) as [ps4|].
+        * pose proof (pick_in (o_p4 o) ps4) as Hp4. rewrite forallb_forall in Hok. exact (Hok _ Hp4).
+        * exact Hok.
+  Qed.
+End proofs.
+
+Definition finals (id : nat) (l : list response) : nat :=
+  List.length (filter (fun p => Nat.eqb (p_id p) id && is_final p) l).
+
+Definition ind (s : option nat) (id : nat) : nat :=
+  match s with Some x => if Nat.eqb x id then 1 else 0 | None => 0 end.
+
+Lemma finals_app : forall id a b, finals id (a ++ b) = finals id a + finals id b.
+Proof. intros. unfold finals. rewrite filter_app, app_length. reflexivity. Qed.
+
+Section proofs2.
+  Variable view : Type.
+  Variable payload : Type.
+  Variable dispatch : view -> string -> payload -> view.
+
+  Notation request := (request payload).
+  Notation worker := (worker view).
+  Notation event := (event payload).
+
+  Lemma answers_one : forall id o from, exists st, answers id o from 1 = [mkResp id st] /\ st <> SProcessing.
+  Proof.
+    intros id o from. cbn [answers]. destruct (o_fail o from); eexists; split; try reflexivity; discriminate.
+  Qed.
+
+  Lemma notify_keeps : forall (w : worker) (r : request) o w' c,
+      notify dispatch w r o = (w', c) -> w_alive w' = w_alive w /\ w_stopping w' = w_stopping w.
+  Proof.
+    intros w r o w' c H. unfold notify in H.
+    destruct (pick (o_p1 o) (s1 (row_of (r_name r)))) as [n1 ret1]. destruct ret1; [inversion H; subst; auto|].
+    destruct (pick (o_p2 o) (s2 (row_of (r_name r)))) as [n2 ret2]. destruct ret2; [inversion H; subst; auto|].
+    inversion H; subst; clear H. unfold bookkeep.
+    destruct (is_add_listener (r_name r)); [destruct (o_listener o); auto|].
+    destruct (r_name r =? "DeactivateListener"); [destruct (o_listener o); auto|].
+    destruct (r_name r =? "RemoveListener"); [destruct (o_applied o); auto|]. auto.
+  Qed.
+
+  (** every request that is not a stop: exactly one response, final, with its id *)
+  Lemma handle_plain : forall (w : worker) (r : request) o w' out,
+      w_alive w = true -> is_stop_name (r_name r) = false ->
+      handle dispatch w r o = (w', out) ->
+      (exists st, out = [mkResp (r_id r) st] /\ st <> SProcessing) /\
+      w_alive w' = true /\ w_stopping w' = w_stopping w.
+  Proof.
+    intros w r o w' out Ha Hs H. unfold handle in H. rewrite Ha in H. cbn [negb] in H.
+    pose proof (row_ok (r_name r)) as Hok. rewrite Hs in Hok.
+    destruct (s0 (row_of (r_name r))) as [ps|] eqn:E0.
+    - inversion H; subst; clear H. unfold total_ok in Hok. rewrite E0 in Hok. cbn [negb andb] in Hok.
+      rewrite forallb_forall in Hok. specialize (Hok _ (pick_in (o_p0 o) ps)). apply Nat.eqb_eq in Hok.
+      rewrite Hok. split; [apply answers_one|auto].
+    - unfold is_stop_name in Hs. apply orb_false_iff in Hs. destruct Hs as [Hs1 Hs2]. rewrite Hs1, Hs2 in H.
+      destruct (notify dispatch w r o) as [w1 [[a agg] b]] eqn:En. inversion H; subst; clear H.
+      destruct (notify_keeps _ _ _ _ _ En) as [K1 K2]. split; [|rewrite K1, K2; auto].
+      assert (Hstop : is_stop (r_name r) = false) by (unfold is_stop; rewrite Hs1, Hs2; reflexivity).
+      destruct (notify_counts view payload dispatch _ _ _ _ _ _ _ E0 En) as [Hc|[_ [-> [-> ->]]]].
+      + unfold is_stop_name in Hc. rewrite Hs1, Hs2 in Hc. cbn [orb] in Hc. unfold check in Hc.
+        apply Nat.eqb_eq in Hc. unfold emit. rewrite Hstop.
+        destruct a as [|[|a]]; destruct agg; destruct b as [|[|b]]; try lia; cbn [answers app].
+        * destruct (o_fail o 0); eexists; split; try reflexivity; discriminate.
+        * destruct (o_fail o 1); eexists; split; try reflexivity; discriminate.
+        * destruct (o_fail o 0); eexists; split; try reflexivity; discriminate.
+      + unfold emit. cbn [answers app]. destruct (o_fail o 0); eexists; split; try reflexivity; discriminate.
+  Qed.
+
+  Lemma handle_soft : forall (w : worker) (r : request) o w' out,
+      w_alive w = true -> r_name r = "SoftStop" ->
+      handle dispatch w r o = (w', out) ->
+      out = [mkResp (r_id r) SProcessing] /\ w_alive w' = true /\ w_stopping w' = Some (r_id r).
+  Proof.
+    intros w r o w' out Ha Hn H. unfold handle in H. rewrite Ha in H. cbn [negb] in H.
+    assert (Hs : is_stop_name (r_name r) = true) by (rewrite Hn; reflexivity).
+    pose proof (stop_not_special _ Hs) as E0. rewrite E0 in H.
+    assert (F1 : (r_name r =? "HardStop") = false) by (rewrite Hn; reflexivity).
+    assert (F2 : (r_name r =? "SoftStop") = true) by (rewrite Hn; reflexivity).
+    rewrite F1, F2 in H.
+    match type of H with context [notify dispatch ?w0 r o] => destruct (notify dispatch w0 r o) as [w1 [[a agg] b]] eqn:En end.
+    inversion H; subst; clear H. destruct (notify_keeps _ _ _ _ _ En) as [K1 K2]. cbn in K1, K2.
+    destruct (notify_counts view payload dispatch _ _ _ _ _ _ _ E0 En) as [Hc|[Hx _]]; [|congruence].
+    rewrite Hs in Hc. unfold check in Hc. apply andb_true_iff in Hc. destruct Hc as [Hc Hb].
+    apply andb_true_iff in Hc. destruct Hc as [Hza Hagg]. apply Nat.eqb_eq in Hza, Hb. subst a b agg.
+    unfold emit, is_stop. rewrite Hn. cbn. auto.
+  Qed.
+
+  Lemma handle_hard : forall (w : worker) (r : request) o w' out,
+      w_alive w = true -> r_name r = "HardStop" ->
+      handle dispatch w r o = (w', out) ->
+      out = [mkResp (r_id r) SProcessing; mkResp (r_id r) SOk] /\ w_alive w' = false /\ w_stopping w' = w_stopping w.
+  Proof.
+    intros w r o w' out Ha Hn H. unfold handle in H. rewrite Ha in H. cbn [negb] in H.
+    assert (Hs : is_stop_name (r_name r) = true) by (rewrite Hn; reflexivity).
+    pose proof (stop_not_special _ Hs) as E0. rewrite E0 in H.
+    assert (F1 : (r_name r =? "HardStop") = true) by (rewrite Hn; reflexivity).
+    rewrite F1 in H.
+    destruct (notify dispatch w r o) as [w1 [[a agg] b]] eqn:En.
+    inversion H; subst; clear H. destruct (notify_keeps _ _ _ _ _ En) as [K1 K2].
+    destruct (notify_counts view payload dispatch _ _ _ _ _ _ _ E0 En) as [Hc|[Hx _]]; [|congruence].
+    rewrite Hs in Hc. unfold check in Hc. apply andb_true_iff in Hc. destruct Hc as [Hc Hb].
+    apply andb_true_iff in Hc. destruct Hc as [Hza Hagg]. apply Nat.eqb_eq in Hza, Hb. subst a b agg.
+    unfold emit, is_stop. rewrite Hn. cbn. auto.
+  Qed.
+
+  Definition req_id_of (e : event) : list nat := match e with EReq r _ => [r_id r] | EDrained => [] end.
+
+  Lemma finals_single : forall id id' st, st <> SProcessing ->
+      finals id [mkResp id' st] = if Nat.eqb id' id then 1 else 0.
+  Proof.
+    intros id id' st Hst. unfold finals. cbn. destruct (Nat.eqb id' id); destruct st; try reflexivity; congruence.
+  Qed.
+
+  Lemma step_budget : forall (w : worker) e w' out id,
+      step dispatch w e = (w', out) ->
+      finals id out + ind (w_stopping w') id <= ind (w_stopping w) id + count_occ Nat.eq_dec (req_id_of e) id.
+  Proof.
+    intros w e w' out id H. destruct e as [r o|]; cbn [step req_id_of count_occ] in *.
+    - destruct (w_alive w) eqn:Ha.
+      + destruct (is_stop_name (r_name r)) eqn:Hs.
+        * unfold is_stop_name in Hs. apply orb_true_iff in Hs. destruct Hs as [Hs|Hs]; apply String.eqb_eq in Hs.
+          -- destruct (handle_soft _ _ _ _ _ Ha Hs H) as [-> [_ ->]]. unfold finals. cbn.
+             destruct (Nat.eq_dec (r_id r) id) as [->|Hne]; [rewrite Nat.eqb_refl; cbn; lia|].
+             apply Nat.eqb_neq in Hne. rewrite Hne. cbn. lia.
+          -- destruct (handle_hard _ _ _ _ _ Ha Hs H) as [-> [_ ->]]. unfold finals. cbn.
+             destruct (Nat.eq_dec (r_id r) id) as [->|Hne]; [rewrite Nat.eqb_refl; cbn; lia|].
+             apply Nat.eqb_neq in Hne. rewrite Hne. cbn. lia.
+        * destruct (handle_plain _ _ _ _ _ Ha Hs H) as [[st [-> Hst]] [_ ->]].
+          rewrite (finals_single _ _ _ Hst).
+          destruct (Nat.eq_dec (r_id r) id) as [->|Hne]; [rewrite Nat.eqb_refl; lia|].
+          apply Nat.eqb_neq in Hne. rewrite Hne. lia.
+      + unfold handle in H. rewrite Ha in H. inversion H; subst. cbn. lia.
+    - destruct (w_alive w); [|inversion H; subst; cbn; lia].
+      destruct (w_stopping w) as [sid|] eqn:Es; inversion H; subst; cbn [w_stopping ind count_occ]; rewrite ?Es; cbn [ind].
+      + unfold finals. cbn. destruct (Nat.eqb sid id); cbn; lia.
+      + cbn. lia.
+  Qed.
+
+  Lemma run_budget : forall es (w : worker) w' out id,
+      run dispatch w es = (w', out) ->
+      finals id out + ind (w_stopping w') id <=
+      ind (w_stopping w) id + count_occ Nat.eq_dec (flat_map req_id_of es) id.
+  Proof.
+    induction es as [|e es IH]; intros w w' out id H; cbn [run flat_map] in *.
+    - inversion H; subst. cbn. lia.
+    - destruct (step dispatch w e) as [w1 o1] eqn:E1. destruct (run dispatch w1 es) as [w2 o2] eqn:E2.
+      inversion H; subst; clear H. rewrite finals_app, count_occ_app.
+      pose proof (step_budget _ _ _ _ id E1). pose proof (IH _ _ _ id E2). lia.
+  Qed.
+
+  Lemma one_final_answer_seq : forall es (w : worker) id,
+      w_stopping w = None -> NoDup (flat_map req_id_of es) ->
+      finals id (snd (run dispatch w es)) <= 1.
+  Proof.
+    intros es w id Hs Hnd. destruct (run dispatch w es) as [w' out] eqn:E.
+    pose proof (run_budget _ _ _ _ id E) as H. rewrite Hs in H. cbn [ind snd] in *.
+    pose proof (proj1 (NoDup_count_occ Nat.eq_dec _) Hnd id). lia.
+  Qed.
+
+  (** ** view_tracks_master *)
+  Hypothesis dispatch_noop : forall v name p, In name state_noop -> dispatch v name p = v.
+
+  Lemma skip_is_noop : forall name, skips_dispatch (row_of name) = true -> In name state_noop.
+  Proof.
+    intros name Hsk. destruct (row_of_name name) as [Hn|[Hn Hin]].
+    - unfold row_of in Hsk. rewrite Hn in Hsk. discriminate.
+    - pose proof all_skips_are_noops as H. unfold skips_ok in H. rewrite forallb_forall in H.
+      specialize (H _ Hin). rewrite Hsk, Hn in H. cbn [negb orb] in H. apply existsb_exists in H.
+      destruct H as [x [Hx He]]. apply String.eqb_eq in He. subst x. exact Hx.
+  Qed.
+
+  Lemma handle_view : forall (w : worker) (r : request) o,
+      w_view (fst (handle dispatch w r o)) =
+      if w_alive w then dispatch (w_view w) (r_name r) (r_payload r) else w_view w.
+  Proof.
+    intros w r o. unfold handle. destruct (w_alive w) eqn:Ha; [|reflexivity]. cbn [negb].
+    assert (Hnot : forall (w0 : worker), w_view w0 = w_view w ->
+              w_view (fst (notify dispatch w0 r o)) = dispatch (w_view w) (r_name r) (r_payload r)).
+    { intros w0 Hv. unfold notify.
+      pose proof (pick_in (o_p1 o) (s1 (row_of (r_name r)))) as Hp1.
+      destruct (pick (o_p1 o) (s1 (row_of (r_name r)))) as [n1 ret1]. destruct ret1.
+      - cbn [fst]. rewrite Hv. symmetry. apply dispatch_noop. apply skip_is_noop. unfold skips_dispatch.
+        destruct (s0 (row_of (r_name r))); [reflexivity|]. apply existsb_exists. exists (n1, true). auto.
+      - destruct (pick (o_p2 o) (s2 (row_of (r_name r)))) as [n2 ret2]. destruct ret2; cbn [fst]; [rewrite Hv; reflexivity|].
+        unfold bookkeep, set_view. rewrite Hv.
+        destruct (is_add_listener (r_name r)); [destruct (o_listener o); reflexivity|].
+        destruct (r_name r =? "DeactivateListener"); [destruct (o_listener o); reflexivity|].
+        destruct (r_name r =? "RemoveListener"); [destruct (o_applied o); reflexivity|]. reflexivity. }
+    destruct (s0 (row_of (r_name r))) as [ps|] eqn:E0.
+    - cbn [fst]. symmetry. apply dispatch_noop. apply skip_is_noop. unfold skips_dispatch. rewrite E0. reflexivity.
+    - destruct (r_name r =? "HardStop").
+      + specialize (Hnot w eq_refl). destruct (notify dispatch w r o) as [w1 c]. cbn [fst] in *. exact Hnot.
+      + destruct (r_name r =? "SoftStop").
+        * match goal with |- context [notify dispatch ?w0 r o] => specialize (Hnot w0 eq_refl); destruct (notify dispatch w0 r o) as [w1 c] end.
+          cbn [fst] in *. exact Hnot.
+        * specialize (Hnot w eq_refl). destruct (notify dispatch w r o) as [w1 c]. cbn [fst] in *. exact Hnot.
+  Qed.
+
+  (** the requests served while the worker was alive *)
+  Fixpoint served (w : worker) (es : list event) : list request :=
+    match es with
+    | [] => []
+    | e :: rest =>
+      (match e with EReq r _ => if w_alive w then [r] else [] | EDrained => [] end)
+      ++ served (fst (step dispatch w e)) rest
+    end.
+
+  Lemma view_tracks_master_seq : forall es (w : worker),
+      w_view (fst (run dispatch w es)) =
+      fold_left (fun v r => dispatch v (r_name r) (r_payload r)) (served w es) (w_view w).
+  Proof.
+    induction es as [|e es IH]; intros w; cbn [run served]; [reflexivity|].
+    destruct (step dispatch w e) as [w1 o1] eqn:E1. specialize (IH w1).
+    destruct (run dispatch w1 es) as [w2 o2]. cbn [fst] in *. rewrite IH, fold_left_app. f_equal.
+    destruct e as [r o|]; cbn [step] in E1.
+    - pose proof (handle_view w r o) as Hv. rewrite E1 in Hv. cbn [fst] in Hv. rewrite Hv.
+      destruct (w_alive w); reflexivity.
+    - destruct (w_alive w); [|inversion E1; reflexivity].
+      destruct (w_stopping w); inversion E1; reflexivity.
+  Qed.
+End proofs2.
+
+Section proofs3.
+  Variable view : Type.
+  Variable payload : Type.
+  Variable dispatch : view -> string -> payload -> view.
+  Notation request := (request payload).
+  Notation worker := (worker view).
+  Notation event := (event payload).
+
+  (** forget base_sessions_count *)
+  Definition erase (w : worker) : worker := mkW (w_view w) 0%Z (w_slots w) (w_stopping w) (w_alive w).
+
+  Lemma notify_erase : forall (w : worker) (r : request) o,
+      snd (notify dispatch (erase w) r o) = snd (notify dispatch w r o) /\
+      erase (fst (notify dispatch (erase w) r o)) = erase (fst (notify dispatch w r o)).
+  Proof.
+    intros w r o. unfold notify.
+    destruct (pick (o_p1 o) (s1 (row_of (r_name r)))) as [n1 ret1]. destruct ret1; [split; reflexivity|].
+    destruct (pick (o_p2 o) (s2 (row_of (r_name r)))) as [n2 ret2]. destruct ret2; [split; reflexivity|].
+    cbn [fst snd]. split; [reflexivity|]. unfold bookkeep, set_view, erase. cbn [w_view w_base w_slots w_stopping w_alive].
+    destruct (is_add_listener (r_name r)); [destruct (o_listener o); reflexivity|].
+    destruct (r_name r =? "DeactivateListener"); [destruct (o_listener o); reflexivity|].
+    destruct (r_name r =? "RemoveListener"); [destruct (o_applied o); reflexivity|]. reflexivity.
+  Qed.
+
+  Lemma erase_stopping : forall (w : worker) s,
+      erase (mkW (w_view w) (w_base w) (w_slots w) s (w_alive w)) = mkW (w_view w) 0%Z (w_slots w) s (w_alive w).
+  Proof. reflexivity. Qed.
+
+  Lemma step_erase : forall (w : worker) e,
+      snd (step dispatch (erase w) e) = snd (step dispatch w e) /\
+      erase (fst (step dispatch (erase w) e)) = erase (fst (step dispatch w e)).
+  Proof.
+    intros w e. destruct e as [r o|]; cbn [step].
+    - unfold handle. cbn [erase w_alive]. destruct (w_alive w) eqn:Ha; cbn [negb]; [|split; reflexivity].
+      destruct (s0 (row_of (r_name r))); [split; reflexivity|].
+      destruct (r_name r =? "HardStop").
+      + destruct (notify_erase w r o) as [A B].
+        destruct (notify dispatch (erase w) r o) as [w1 c1]. destruct (notify dispatch w r o) as [w2 c2].
+        cbn [fst snd] in *. subst c2. split; [reflexivity|].
+        unfold erase in *. cbn [w_view w_base w_slots w_stopping w_alive] in *. inversion B. reflexivity.
+      + destruct (r_name r =? "SoftStop").
+        * set (w0 := mkW (w_view w) (w_base w) (w_slots w) (Some (r_id r)) true).
+          change (mkW (w_view (erase w)) (w_base (erase w)) (w_slots (erase w)) (Some (r_id r)) true)
+            with (erase w0).
+          destruct (notify_erase w0 r o) as [A B].
+          destruct (notify dispatch (erase w0) r o) as [w1 c1]. destruct (notify dispatch w0 r o) as [w2 c2].
+          cbn [fst snd] in *. subst c2. split; [reflexivity|exact B].
+        * destruct (notify_erase w r o) as [A B].
+          destruct (notify dispatch (erase w) r o) as [w1 c1]. destruct (notify dispatch w r o) as [w2 c2].
+          cbn [fst snd] in *. subst c2. split; [reflexivity|exact B].
+    - cbn [erase w_alive w_stopping]. destruct (w_alive w); [|split; reflexivity].
+      destruct (w_stopping w); split; reflexivity.
+  Qed.
+
+  (** the answers of a worker do not depend on base_sessions_count *)
+  Lemma run_erase : forall es (w : worker),
+      snd (run dispatch (erase w) es) = snd (run dispatch w es).
+  Proof.
+    assert (G : forall es (w1 w2 : worker), erase w1 = erase w2 -> snd (run dispatch w1 es) = snd (run dispatch w2 es)).
+    { induction es as [|e es IH]; intros w1 w2 He; cbn [run]; [reflexivity|].
+      destruct (step_erase w1 e) as [A1 B1]. destruct (step_erase w2 e) as [A2 B2]. rewrite He in A1, B1.
+      destruct (step dispatch w1 e) as [x1 o1]. destruct (step dispatch w2 e) as [x2 o2].
+      cbn [fst snd] in *. assert (Ho : o1 = o2) by congruence. assert (Hx : erase x1 = erase x2) by congruence.
+      specialize (IH x1 x2 Hx). destruct (run dispatch x1 es). destruct (run dispatch x2 es). cbn [snd] in *. congruence. }
+    intros es w. apply G. reflexivity.
+  Qed.
+End proofs3.
+
